@@ -1,6 +1,6 @@
 """C18 The IMUL_RCP reciprocal is exact for every divisor."""
 import astq
-from rules import decode, genreset, jit, rv64, sshash
+from rules import decode, genreset, jit, rv64, sshash, x86hsem
 
 LEVEL = 'other'
 TECHNIQUE = 'control-dependence check of the no-op guard in every engine (decoder path enumeration) + definition check of the power-of-two predicate; IR effect check of the reciprocal routine'
@@ -64,3 +64,4 @@ def run(ctx, R):
     genreset.rule_gen_reset(ctx, R, 'a64')
     genreset.rule_gen_reset(ctx, R, 'rv64')
     rv64.rule_rvv_rcp(ctx, R, F)
+    x86hsem.rule_hsem(ctx, R)
